@@ -247,6 +247,16 @@ def gen_purity_world(rw, rv, knobs):
                 inv_b = R.add("inv", {"kind": "inversion", "dataset": ref(ds_masked), "objs": [ref(o) for o in objs], "settings": ref(settings) if settings else None})
                 R.add("fit", {"kind": "fit_imaging", "dataset": ref(ds_masked), "inversion": ref(inv_b)})
                 R.add("pl", {"kind": "preloads", "kw": {}})
+        if rw.random() < 0.3:
+            # the same dataset presented through a DatasetInterface with DIFFERENT data (e.g. a foreground-subtracted image) that
+            # shares the dataset's operators and w-tilde table, and an inversion on it
+            parts = {}
+            for name in ("data", "noise_map", "grids", "convolver", "w_tilde"):
+                parts[name] = R.add("dp", {"kind": "derive", "src": ref(ds_masked), "q": {"t": "prop", "name": name}})
+            data_b = R.add("dp", {"kind": "derive", "src": ref(parts["data"]), "q": {"t": "op", "name": rw.choice(["mul", "sub"]), "other": rw.choice([0.5, 2.0])}})
+            di = R.add("di", {"kind": "dataset_interface", "data": ref(data_b), "noise": ref(parts["noise_map"]), "grids": ref(parts["grids"]),
+                              "convolver": ref(parts["convolver"]), "w_tilde": ref(parts["w_tilde"])})
+            R.add("inv", {"kind": "inversion", "dataset": ref(di), "objs": [ref(o) for o in objs], "settings": ref(settings) if settings else None})
         mappers = [o for o in objs if o.startswith("mp")]
         if mappers and rw.random() < 0.7:
             mp = rw.choice(mappers)
